@@ -20,7 +20,13 @@ Results (all for every schedule): `Inv` (conservation: received ++ queued = sent
 emitted list; closed only after the last result was sent; the log is `send`s followed by at most one
 final `close`), `measure_step`/`not_deadlocked`/`fair_finishes` (every fair schedule ends the
 consumer's iteration), `finished_exact` (whenever the consumer's iteration has ended it has received
-exactly the emitted list, in order). -/
+exactly the emitted list, in order).
+
+Limits of THIS model (second review, item 10), and where they are lifted: `closed` is "the one sender this
+producer was handed is dropped", which is "the channel is disconnected" only if no clone of the sender exists -
+several producers on clones of one sender: `ChannelClones.lean` (explicit sender count); `cap = some 0` makes every
+`send` block forever here, whereas crossbeam's `bounded(0)` is a rendezvous channel: `ChannelZero.lean`; the
+receiver dropped before the end, over whole schedules: `ChannelDrop.lean`. -/
 namespace Chan
 
 inductive Ev where
